@@ -701,12 +701,14 @@ def _register_capabilities_hooks(converter: cattrs.Converter) -> cattrs.Converte
         assert isinstance(object_, list)
         if len(object_) == 0:
             return []
-        if "deprecated" in object_[0]:
+        if any("deprecated" in item for item in object_):
             return [
                 converter.structure(item, lsp_types.SymbolInformation)
                 for item in object_
             ]
-        elif ("data" in object_[0]) or ("range" not in object_[0]["location"]):
+        elif any(
+            ("data" in item) or ("range" not in item["location"]) for item in object_
+        ):
             return [
                 converter.structure(item, lsp_types.WorkspaceSymbol) for item in object_
             ]
